@@ -28,3 +28,19 @@ theorem check_iff (i : Info) (v : Nat) (hc : i.count ≤ 7) :
     simp [Gen.fieldInfoCheck, U64.shl, U64.mul, U64.wrap] <;> omega
 
 end Tls
+
+namespace Tls
+open CTV
+
+/-- `byteCount x` is the least number of bytes (1…8) that holds every value up to and including `x`. -/
+theorem byteCount_spec' (x : Nat) (hx : x < 2 ^ 64) :
+    1 ≤ (Gen.byteCount (Int.ofNat x)).toNat ∧ (Gen.byteCount (Int.ofNat x)).toNat ≤ 8 ∧
+    x < 256 ^ (Gen.byteCount (Int.ofNat x)).toNat ∧
+    (1 < (Gen.byteCount (Int.ofNat x)).toNat → 256 ^ ((Gen.byteCount (Int.ofNat x)).toNat - 1) ≤ x) := by
+  unfold Gen.byteCount
+  simp only [Int.ofNat_eq_natCast, decide_eq_true_eq]
+  repeat' split
+  all_goals simp
+  all_goals omega
+
+end Tls
